@@ -88,4 +88,39 @@ PROPS = {
         'rule': 'single-step cases on the real Cpu (fetch+exec through the verif hook) from a tagged background memory (every byte = hash of its address) with the full register file, CCR, PC, cost and the complete delta of all five stores compared: per form of spec/isa.tbl every combination of the register fields (x2), all 256 initial CCR values, every value of immediate/bit/condition fields, seeded random instances with boundary-value register files and operand addresses at both ends of on-chip RAM, DRAM and the vector area; six bus-controller settings under which every (area, kind) cost is distinct; only the charge is compared. distinct non-trivial = distinct (form, first instruction bytes, resulting register file) triples of in-domain cases.',
         'assumptions': ['the hand-written Model/Cpu.lean mirrors the Rust handlers (checked by the correspondence run on every case); only its dispatch tables are regenerated from source'],
     },
+    'C10': {
+        'lean': ['H8.Props.C10', 'H8.Props.C06'],
+        'gen': ['consts', 'busmap', 'dispatch', 'buscost'],
+        'runs': [{'mode': 'step', 'shards': 16}],
+        'rule': 'generated programs (counted ALU loop, optional BSR/RTS leaf, final self-loop) with 1-4 handlers ending in RTE (RTE only / counter increments), vectors 1-63 installed, CCR.I clear or set at start, 20-120 instruction boundaries, schedules of 0-10 requests incl. bursts at one boundary, repeats and requests while a handler runs; every program also runs without requests. The real try_interrupt+step loop is driven through the hooks; the trace of PCs at every boundary, the pending queue and the complete final state are compared with Model and Spec. distinct non-trivial = distinct programs x schedules.',
+        'assumptions': ['handlers used by the generator keep I set until RTE (the emulator implements no instruction that clears I other than RTE)'],
+    },
+    'C14': {
+        'lean': ['H8.Props.C14'],
+        'gen': ['consts', 'busmap', 'dispatch', 'buscost'],
+        'runs': [{'mode': 'step', 'shards': 16}],
+        'rule': 'TRAPA #0 cases: write (ER0=104) with argument blocks and buffers in on-chip RAM and DRAM, lengths 0-4096, valid UTF-8 incl. NUL, newline, backslash, 2-4 byte characters (a few invalid sequences, model-only), back-to-back calls; set_handler (ER0=113) with vectors 0-255 and beyond followed by an interrupt of that vector at the next boundary; other call numbers. Captured messages, registers, CCR, PC, memory delta compared with Model and Spec. distinct non-trivial = distinct cases whose Spec result is valid.',
+        'assumptions': ["the console stream (print!) is observed only through the identical string handed to send_stdout_message; the binary's stdout is compared in C13"],
+    },
+    'C15': {
+        'lean': ['H8.Props.C15'],
+        'gen': ['consts', 'busmap', 'dispatch', 'buscost'],
+        'runs': [{'mode': 'step', 'shards': 16, 'profile': 'release'}, {'mode': 'step', 'shards': 16, 'profile': 'checked'}],
+        'rule': 'every first instruction word (quick: every second) x adversarial register files (0, 1, 0xFFFFFFFF, region edges, odd values, 2^24, 2^31) x random CCR x reset/random bus-controller settings, executed from the last bytes of every mapped region and from ordinary code addresses, 1-5 instructions; every valid form with half-adversarial registers; system calls with adversarial argument blocks; run in the release profile AND in release+overflow-checks+debug-assertions under catch_unwind. Outcome class ok/err/panic compared with the Model; any panic is a violation unless it is the modelled fetch panic. distinct non-trivial = distinct (Spec class, form, outcome) triples.',
+        'assumptions': ['aborts that are not Rust panics (allocation failure, stack overflow, panics inside dependencies) are only observable by the harness, not by a theorem', "control-channel lines are fuzzed in C18's run-loop check (same never-panic oracle)"],
+    },
+    'C16': {
+        'lean': ['H8.Props.C16'],
+        'gen': ['consts', 'busmap'],
+        'runs': [{'mode': 'bus16', 'shards': 16}],
+        'rule': 'histories over {write DDR v, write DR v, external pin v, read DR} with v from {00,FF,0F,F0,55,AA,01,80} through Bus::write / Bus::read / Bus::write_port with captured ioport messages: bounded-exhaustive to depth 3 (quick; ports 1,5,B) / depth 4 (thorough; all 11 ports) each followed by a read, plus seeded random histories to length 64 over one or two interleaved ports with time stamps. Reads, last announced value per port vs driven output, message format and time-stamp monotonicity are checked against the latch Spec. distinct non-trivial = distinct histories.',
+        'assumptions': ['PortM (Props/C16.lean) restates for one port the expressions of Model/Bus.lean; the correspondence run executes Model/Bus.lean against the real Bus on every history'],
+    },
+    'C17': {
+        'lean': ['H8.Props.C17'],
+        'gen': ['consts', 'busmap'],
+        'runs': [{'mode': 'bus17', 'shards': 16}],
+        'rule': "histories on the real Bus + timer through Bus::write, update_modules (hook) and the pending queue: every TCR value as first clock selection, TCORA/TCORB/TCNT start values (small and random; the statement's side condition kept when a clear source is selected), 1-60 operations mixing charges of 1-255 states (incl. runs of 8-40 maximal charges for /8192), TCR/TCSR/TCNT writes and TCNT/TCSR reads; compared per read and on the request list with the tick-by-tick reference. distinct non-trivial = distinct histories in which the counter counted or a request was raised.",
+        'assumptions': ['the Spec pins the phase after a clock selection to 0 (the statement allows any constant phase; 0 is what the repaired code uses)'],
+    },
 }
